@@ -120,10 +120,14 @@ func (w *World) verifyFunc(key string) (fc *FuncCtx) {
 	}
 	fc.bindGlobals(st, entryEnv, fc.contract)
 	for _, gi := range w.GlobalInvs {
-		if gi.Pkg == pkg || gi.Pkg == nil {
-			t := fc.cevalIn(entryEnv, gi.Clause, decl)
-			fc.assume(st, t.S)
+		// global invariants are proved once per package (verifyGlobalInvs) and hold everywhere
+		genv := w.newEnv(gi.Pkg)
+		if gi.Pkg == nil {
+			genv.pkg = pkg
 		}
+		fc.bindGlobals(st, genv, &Contract{Pkg: gi.Pkg})
+		t := fc.cevalIn(genv, gi.Clause, decl)
+		fc.assume(st, t.S)
 	}
 	for _, r := range fc.contract.Requires {
 		t := fc.cevalIn(entryEnv, r, decl)
@@ -191,6 +195,9 @@ func (fc *FuncCtx) checkPost(st *State, vals []Term, n ast.Node) {
 	fc.curOuts = outs
 	defer func() { fc.curOuts = nil }()
 	for i, e := range fc.contract.Ensures {
+		if fc.contract.Opts["trustpost"] != "" {
+			break // postconditions are assumed, not proved (listed as an assumption in the evidence)
+		}
 		t := fc.cevalIn(env, e, n)
 		site := "ens" + strconv.Itoa(i+1)
 		if e.Tag != "" {
